@@ -1103,10 +1103,29 @@ Definition spec_pad_none (target axis : Z) (clip : bool) (t : ty) (vs : list val
 
 (* ak.is_none(array, axis): True exactly at the None entries of the lists at depth [axis] *)
 Definition is_none_f (_ : ty) (l : list value) : res value := Ok (VList (map (fun v => VBool (is_none v)) l)).
+(* through a union (whose alternatives need not have the same depth) the levels are counted on the values themselves:
+   [d] list levels are still to be descended; a missing list stays missing; a non-list met above the addressed level
+   is an error; strings above the addressed level are left unspecified (they are lists of characters to the library) *)
+Fixpoint is_none_at (d : nat) (v : value) {struct d} : res value :=
+  match d with
+  | O => Ok (VBool (is_none v))
+  | S d' => match v with
+            | VNone => Ok VNone
+            | VList l => rmap VList (mapM (is_none_at d') l)
+            | VStr _ _ => unspecified
+            | _ => Err EValue
+            end
+  end.
+Definition spec_is_none_union (axis : Z) (vs : list value) : res value :=
+  if axis <? 0 then unspecified else rmap VList (mapM (is_none_at (Z.to_nat axis)) vs).
 Definition spec_is_none (axis : Z) (t : ty) (vs : list value) : res value :=
-  do ax <- resolve_axis_top t axis;
-  if ax =? 0 then (match t with TUnion _ => unspecified | _ => is_none_f t vs end)
-  else rmap VList (spec_ax is_none_f true (fun _ => true) false t axis vs).
+  match t with
+  | TUnion _ => spec_is_none_union axis vs
+  | _ =>
+    do ax <- resolve_axis_top t axis;
+    if ax =? 0 then is_none_f t vs
+    else rmap VList (spec_ax is_none_f true (fun _ => true) false t axis vs)
+  end.
 
 (* ak.fill_none(array, value, axis) *)
 Section Fill.
